@@ -18,10 +18,12 @@ DESIGN_REF = '6/C19'
 TECHNIQUE = 'Lean 4 proof over a hand-written model + bit-exact correspondence check'
 LEVEL_TEXT = ("Lean 4 theorems over every list of particle arrays and every ordered field "
               "(hmin_is_smallest_h, explicit_spec, formula, factors_are_maxima, never_exceeds_any_particle, "
-              "fallback_when_none) about a hand-written model that transcribes compute_time_step and friends; "
+              "fallback_when_none; and over every history of set_fixed_h/compute_time_step calls on changing arrays: "
+              "tracks_run, history_cts, history_cts_fresh, refix_refreshes) about a hand-written model that transcribes "
+              "compute_time_step and friends and the state the integrator keeps between calls; "
               "the model is tied to the code on every run by bit-exact differential execution at Float against "
               "the scratch build of /repo, and the property's own predicate is evaluated on the implementation "
               "to produce replays.")
 LEVEL_NOTE = ("Trusted: Lean kernel, axioms propext/Classical.choice/Quot.sound; the hand-written model (checked by "
-              "the correspondence, 400+ cases quick); exact-field arithmetic with abstract monotone sqrt in place of "
+              "the correspondence, 400+ cases and 200 op histories with state comparison after every op, quick); exact-field arithmetic with abstract monotone sqrt in place of "
               "IEEE doubles; cyarray's minimum attribute modelled; serial CPU path only.")
